@@ -83,7 +83,7 @@ BaseInstances ==
   \* only one of parse_err_ty / parse_err_fn
   \cup {Inst("lone_parse_err", "EnumString", k, s, "", FALSE) : k \in {"parse_err_ty", "parse_err_fn"}, s \in {"", "with_default_first", "with_default_last"}}
   \* an unsupported property literal
-  \cup {Inst("prop_literal", "EnumProperty", "props", s, p, FALSE) : s \in {"float", "char", "bytestr", "byte", "float_after_same_key", "float_after_same_key_split", "char_before_same_key"}, p \in {"first", "last"}}
+  \cup {Inst("prop_literal", "EnumProperty", "props", s, p, FALSE) : s \in {"float", "char", "bytestr", "byte", "cstr", "float_after_same_key", "float_after_same_key_split", "char_before_same_key"}, p \in {"first", "last"}}
   \* an unknown keyword
   \cup {Inst("unknown_kw", d, "", s, "", FALSE) : d \in Derives \ {"EnumIs", "EnumTryAs", "EnumTable", "FromRepr", "VariantArray", "EnumDiscriminants"}, s \in {"enum", "variant"}}
 
